@@ -22,8 +22,8 @@
                               inserted in another order). *)
 From Coq Require Import List NArith ZArith Bool Permutation.
 From SK Require Import lib.LGraph model.C01_Model model.C02_Model model.C09_Model
-  proof.C09_Canon proof.C09_Valid proof.C09_Balance proof.C09_Main proof.C09_Indep proof.C09_Indep2 proof.C09_ValidRC proof.C09_WL.
-From SK Require model.C08_Model.
+  proof.C09_Canon proof.C09_Valid proof.C09_Balance proof.C09_Main proof.C09_Indep proof.C09_Indep2 proof.C09_ValidRC proof.C09_WL proof.C09_NautyRigid proof.C09_Nauty.
+From SK Require model.C08_Model proof.C08_Spec model.C01_Opts.
 Import ListNotations.
 
 (** 1. Canonicalising = relabelling both sides by ONE injective map f (canonical position on the reactant atoms, fresh
@@ -66,6 +66,16 @@ Theorem C09_canon_nauty_is_relabelling : forall G H : mgraph,
     its_isomorphic (its_construct (set_amap (relabel f G)) (set_amap Hc)) (its_construct G H).
 Proof. exact canon_nauty_is_relabelling. Qed.
 Print Assumptions C09_canon_nauty_is_relabelling.
+
+Theorem C09_canon_generic_is_relabelling : forall G H : mgraph,
+  parsed G -> parsed H -> (exists s, In s (node_ids G) /\ In s (node_ids H)) ->
+  exists (f : N -> N) (Gc Hc : mgraph) (pairs : list (N * N)),
+    (forall a b, f a = f b -> a = b) /\
+    canonicalise_generic G H = Some (set_amap Gc, pairs, set_amap Hc) /\
+    relabelled_by f G Gc /\ Hc = relabel f H /\
+    its_isomorphic (its_construct (set_amap Gc) (set_amap Hc)) (its_construct G H).
+Proof. exact canon_generic_is_relabelling. Qed.
+Print Assumptions C09_canon_generic_is_relabelling.
 
 (** 1'. The step added by repair 8092e28 is necessary: remap_graph with the shared pairs only (the code before the
        repair) can send two product atoms to the same id (witness: the regress case collision#wl). *)
@@ -155,6 +165,36 @@ Theorem C09_fixed_point_wl_partial : forall (ranks1 ranks2 : list (N * Z)) (G H 
 Proof. exact fixed_point_wl. Qed.
 Print Assumptions C09_fixed_point_wl_partial.
 
+(** 2''. Back-end nauty, invariance premise DISCHARGED from the C08 facts about the search (the best leaf of a renamed
+       graph is the image of a leaf with the same label; leaves with the same label correspond by an automorphism):
+       when all reactant atoms are distinguishable ([rigid (to_c08 G)]: the only position-wise correspondence between two
+       enumerations of the atoms that keeps element, charge, aromaticity, hydrogen count and the bonds is the identity)
+       and the element symbols are alphanumeric ([els_ok]), the two presentations get the same canonical graphs from
+       [canonicalise_nauty] (the function [run_canon_nauty] evaluates), and a second run returns the canonical graphs.
+       Partial w.r.t. the property text only through the RDKit writer / parser contract S2 (string level). *)
+Theorem C09_numbering_independent_nauty_partial : forall (G H G2' H2' : mgraph) (p : N -> N),
+  parsed G -> parsed H -> (exists s, In s (node_ids G) /\ In s (node_ids H)) ->
+  (forall a b, p a = p b -> a = b) -> (forall n, In n (node_ids G) \/ In n (node_ids H) -> p n <> 0%N) ->
+  (forall m n, In m (node_ids H) -> ~ In m (node_ids G) -> In n (node_ids H) -> ~ In n (node_ids G) -> (m <= n)%N -> (p m <= p n)%N) ->
+  relabelled_by p G G2' -> relabelled_by p H H2' ->
+  C08_Spec.els_ok (to_c08 G) -> rigid (to_c08 G) ->
+  exists (pairs1 pairs2 : list (N * N)) (Gc1 Gc2 Hc1 Hc2 : mgraph),
+    canonicalise_nauty G H = Some (Gc1, pairs1, Hc1) /\
+    canonicalise_nauty (set_amap G2') (set_amap H2') = Some (Gc2, pairs2, Hc2) /\
+    same_upto_order Gc2 Gc1 /\ same_upto_order Hc2 Hc1.
+Proof. exact numbering_independent_nauty. Qed.
+Print Assumptions C09_numbering_independent_nauty_partial.
+
+Theorem C09_fixed_point_nauty_partial : forall G H : mgraph,
+  parsed G -> parsed H -> (exists s, In s (node_ids G) /\ In s (node_ids H)) ->
+  C08_Spec.els_ok (to_c08 G) -> rigid (to_c08 G) ->
+  exists (pairs1 : list (N * N)) (Gc1 Hc1 : mgraph),
+    canonicalise_nauty G H = Some (Gc1, pairs1, Hc1) /\
+    exists (pairs2 : list (N * N)) (Gc2 Hc2 : mgraph),
+      canonicalise_nauty Gc1 Hc1 = Some (Gc2, pairs2, Hc2) /\ same_upto_order Gc2 Gc1 /\ same_upto_order Hc2 Hc1.
+Proof. exact fixed_point_nauty. Qed.
+Print Assumptions C09_fixed_point_nauty_partial.
+
 (** 3. The validator is exact: the matcher the correspondence runs answers true iff the two ITS graphs (resp. the two
        reaction centres) are isomorphic on typesGH + order. *)
 Theorem C09_validator_exact : forall G1 H1 G2 H2 : mgraph, wf G2 -> wf H2 ->
@@ -163,6 +203,24 @@ Theorem C09_validator_exact : forall G1 H1 G2 H2 : mgraph, wf G2 -> wf H2 ->
      its_isomorphic (get_rc (its_construct G1 H1)) (get_rc (its_construct G2 H2))).
 Proof. exact validator_exact. Qed.
 Print Assumptions C09_validator_exact.
+
+(** options (round 3): with ignore_aromaticity = ia the validator is exact on the ITS / centre built with that option
+    ([its_construct_o], C01_Opts: standard_order zeroed when the orders differ by less than 1); ia = false is the function
+    above.  The model functions are pure: a verdict never depends on the calls made before (the implementation is
+    compared step by step in history cases). *)
+Theorem C09_validator_exact_options : forall (ia : bool) (G1 H1 G2 H2 : mgraph), wf G2 -> wf H2 ->
+  (smiles_check_its_o ia G1 H1 G2 H2 = true <->
+     its_isomorphic (C01_Opts.its_construct_o (vopts ia) G1 H1) (C01_Opts.its_construct_o (vopts ia) G2 H2)) /\
+  (smiles_check_rc_o ia G1 H1 G2 H2 = true <->
+     its_isomorphic (get_rc (C01_Opts.its_construct_o (vopts ia) G1 H1)) (get_rc (C01_Opts.its_construct_o (vopts ia) G2 H2))).
+Proof. exact validator_exact_o. Qed.
+Print Assumptions C09_validator_exact_options.
+
+Theorem C09_validator_default_option : forall G1 H1 G2 H2 : mgraph,
+  smiles_check_its_o false G1 H1 G2 H2 = smiles_check_its G1 H1 G2 H2 /\
+  smiles_check_rc_o false G1 H1 G2 H2 = smiles_check_rc G1 H1 G2 H2.
+Proof. exact smiles_check_o_default. Qed.
+Print Assumptions C09_validator_default_option.
 
 (** every renumbering of a mapping is accepted, by both methods, also with re-ordered atoms and rewritten atom_map
     attributes, as the parser of the renumbered string delivers them ([relabelled_by f G G'], [set_amap]) *)
